@@ -468,7 +468,17 @@ impl SignatureCache {
 
     /// Verify signature with caching
     pub fn verify_cached(&mut self, record: &PeerDHTRecord) -> Result<()> {
-        let hash = record.content_hash();
+        // The verdict depends on every signed field and on the signature itself, so the
+        // cache key must too. content_hash() (user id, sequence, timestamp) is shared by
+        // a genuine record and any altered or forged copy of it.
+        let hash = {
+            let message = record.create_signable_message()?;
+            let mut hasher = blake3::Hasher::new();
+            hasher.update(&(message.len() as u64).to_be_bytes());
+            hasher.update(&message);
+            hasher.update(record.signature.as_bytes());
+            hasher.finalize()
+        };
 
         // Check cache first
         if let Some(&result) = self.cache.get(&hash) {
